@@ -29,10 +29,19 @@ OBLIGATIONS = [
         encodes=_ENC, stubs=_STUB) for _k in range(5)
 ] + [
     _o("pretty_part_pure", 180, "XmlPart over the one-child shapes: custom_pretty_tree twice, in-memory tree compared"),
-    Obl(name="save_neutral", module="h_docsave", func="save_neutral", shadow=True, timeout=600, replay="r_h_docsave:save_neutral", weight=75,
-        bounds="Document over an in-memory container: parts touched before saving (content, styles), pretty flag of the first save, paragraph texts from a list - all symbolic choices; then a plain save",
-        encodes=["src/odfdo/document.py:Document.save,get_part,content,styles,body,_check_manifest_rdf", "src/odfdo/xmlpart.py:XmlPart.serialize,pretty_serialize,custom_pretty_tree,_get_tree,root",
-                 "src/odfdo/meta.py:Meta.set_generator_default"],
-        stubs=_STUB + ["h_docsave.MemContainer: dict-backed subclass of Container (get_part/set_part/del_part/parts/save), no zip or filesystem"]),
+] + [
+    Obl(name=f"save_neutral_t{_k}", module="h_docsave", func="save_neutral", shadow=True, timeout=600, env={"VERIF_K0": str(_k)}, extra={"k0": _k},
+        replay="r_h_docsave:save_neutral", weight=80,
+        bounds=("Document over an in-memory container: parts touched before saving (content, styles), a manifest entry added in memory, pretty flag of the first save, "
+                f"second paragraph text from a list - all symbolic choices (first text the {_k}-th of the list, per process); then a plain save; every XML part written by the "
+                "first save equals the plain one up to ignorable white space"),
+        encodes=["src/odfdo/document.py:Document.save,get_part,content,styles,body,manifest,_check_manifest_rdf", "src/odfdo/xmlpart.py:XmlPart.serialize,pretty_serialize,custom_pretty_tree,_get_tree,root",
+                 "src/odfdo/meta.py:Meta.set_generator_default", "src/odfdo/manifest.py:Manifest.add_full_path"],
+        stubs=_STUB + ["h_docsave.MemContainer: dict-backed subclass of Container (get_part/set_part/del_part/parts/save), no zip or filesystem"]) for _k in range(3)
+] + [
+    Obl(name="flat_xml", module="h_flatxml", func="flat_xml", shadow=True, timeout=600, replay="r_h_flatxml:flat_xml", weight=75,
+        bounds=("flat-XML packaging over a real in-memory Container: three frames each showing (symbolic choice) no image, picture A, picture B or an image linked by URL; pretty flag symbolic; "
+                "structure of the four parts kept, every frame keeps exactly its image (embedded as base64 of ITS part, or the link untouched)"),
+        encodes=["src/odfdo/container.py:Container._xml_content,_encoded_image,set_part,get_part,pretty_indent"], stubs=_STUB),
     _o("pretty_two_region", 50, "companion of known finding C11-pretty-leaks-space", expect="finding", finding="C11-pretty-leaks-space"),
 ]
